@@ -1114,6 +1114,10 @@ def check_roundtrip(R, case, o, prefix=""):
 
 
 def save_case(R, case, model_q):
+    return guarded(R, "save:", case, _save_case, model_q)
+
+
+def _save_case(R, case, model_q):
     """sequential reference + every chosen (num_threads, order); registers failures on R"""
     desc, api, ce = case["desc"], case["api"], case["copy_existing"]
     ft = features(desc)
@@ -1239,7 +1243,24 @@ def in_child(method, root, blob, desc2, timeout=120):
     return out
 
 
+def guarded(R, prefix, case, f, *a):
+    """an unexpected exception of the code under test is an observation (an oracle failure), never a crash of the check"""
+    try:
+        return f(R, case, *a)
+    except EXC as e:  # noqa: BLE001
+        tb = traceback.extract_tb(e.__traceback__)
+        where = [f"{os.path.basename(fr.filename)}:{fr.lineno}:{fr.name}" for fr in tb][-4:]
+        if not any("tensordict" in fr.filename or "torch" in fr.filename for fr in tb):
+            raise          # the machinery itself
+        fail(R, prefix, "unexpected-exception", case, {"exc": repr(e)[:300], "where": where})
+        return None
+
+
 def live_case(R, case):
+    return guarded(R, "live:", case, _live_case)
+
+
+def _live_case(R, case):
     """a memory-mapped tensordict is a live view of its files (same process / later load / child processes)"""
     desc, api, child = case["desc"], case["api"], case.get("child")
     root = tempfile.mkdtemp(prefix="c10l-")
@@ -1356,6 +1377,10 @@ def fix_lazy_bs(d):
 
 
 def resave_case(R, case, model_q):
+    return guarded(R, "resave:", case, _resave_case, model_q)
+
+
+def _resave_case(R, case, model_q):
     d1, d2, api = case["first"], case["desc"], case["api"]
     root = tempfile.mkdtemp(prefix="c10r-")
     try:
@@ -1439,6 +1464,10 @@ def gen_grow_ops(rng, d):
 
 
 def grow_case(R, case, model_q):
+    return guarded(R, "grow:", case, _grow_case, model_q)
+
+
+def _grow_case(R, case, model_q):
     d0, ops, d1 = case["desc"], case["ops"], case["after"]
     root = tempfile.mkdtemp(prefix="c10g-")
     try:
@@ -1996,7 +2025,12 @@ def main(R):
     n_struct = 100 if quick else 1500
     budget = {"n5": 4 if quick else 10 ** 9}
     apis = ["memmap", "memmap_", "memmap_like", "save"]
+    t_save = time.time()
     for i in range(n_struct):
+        if quick and i >= 40 and time.time() - t_save > 60:
+            # the quick tier has a wall-clock budget: on a loaded machine the stream is cut (the count is in the evidence)
+            R.extra["save_stream_cut_at"] = i
+            break
         desc = gen_structure(rng)
         quirk = None
         if rng.random() < 0.3:
